@@ -194,6 +194,8 @@ impl OligoComputer {
                 let records_arc_clone = Arc::clone(&records_arc);
                 let header_len = header.len();
                 scope.spawn(move |_| {
+                    #[cfg(kmertools_verif)]
+                    let _verif_guard = ktio::verif::WorkerGuard;
                     loop {
                         #[cfg(kmertools_verif)]
                         ktio::verif::sched_point("take", -1);
